@@ -106,8 +106,12 @@ PPL::Congruence::scale(Coefficient_traits::const_reference factor) {
     return;
   }
 
-  expr *= factor;
-  modulus_ *= factor;
+  // `factor' may be (a reference to) a coefficient or the modulus
+  // of `*this'.
+  PPL_DIRTY_TEMP_COEFFICIENT(f);
+  f = factor;
+  expr *= f;
+  modulus_ *= f;
 }
 
 void
